@@ -10,17 +10,27 @@ SWITCHES = json.load(open(os.path.join(vlib.ROOT, "spec", "switches.json")))
 _CACHE = {}
 
 
-def extract(tier):
-    if "ex" in _CACHE:
-        return _CACHE["ex"]
+FEE_LIMIT = 2
+
+
+def extract(tier, mode="default"):
+    """mode "feelimit": the node runs with a fee velocity limit of FEE_LIMIT Withdraw fees per hour, the counted
+    fees are part of the state (Node.tla k.feeLimit), and the alphabet is the on-chain part only (Withdraw in
+    all variants, one channel to fund, Restart) - refusals by the velocity limit and what they leave behind."""
+    if ("ex", mode) in _CACHE:
+        return _CACHE[("ex", mode)]
     binpath = vlib.build("node")
-    d = vlib.workdir("node-b")
+    d = vlib.workdir("node-b" + ("" if mode == "default" else "-" + mode))
     alpha = os.path.join(d, "alphabet.json")
     vlib.tlc("NodeAlphabet", os.path.join(SPEC, "NodeAlphabet.cfg"), env={"ND_OUT": alpha}, workers=1, timeout=300,
              name="node-alphabet")
+    if mode == "feelimit":
+        keep = [r for r in json.load(open(alpha))
+                if r["op"] in ("Withdraw", "Restart") or (r["op"] in ("NewChannel", "Setup") and r["d"] == 1)]
+        json.dump(keep, open(alpha, "w"))
     t0 = time.time()
     stats = vlib.run_bin(binpath, ["explore", "--alphabet", alpha, "--out", os.path.join(d, "ex"), "--threads", 16,
-                                   "--max-chans", 2], timeout=3000)
+                                   "--max-chans", 2, "--policy", mode], timeout=3000)
     nodes = os.path.join(d, "nodes.ndjson")
     rows = vlib.merge_nodes(os.path.join(d, "ex"), nodes)
     details = {}
@@ -35,18 +45,37 @@ def extract(tier):
     vlib.write_cfg(cfg, "SPECIFICATION Spec\nVIEW View\nINVARIANTS NoIdReuse\nCHECK_DEADLOCK FALSE\n")
     report = os.path.join(d, "report.json")
     r = vlib.tlc("ImplNode", cfg, env={"ND_NODES": nodes, "ND_ALPHABET": alpha, "ND_REPORT": report,
+                                       "ND_FEE_LIMIT": FEE_LIMIT if mode == "feelimit" else 0,
+                                       "ND_COUNTS_BEFORE_SIGN": "true" if SWITCHES.get("withdrawCountsBeforeSign", True) else "false",
                                        "ND_ATOMIC_ALLOWLIST": "true" if SWITCHES.get("atomicAllowlist") else "false"},
                  workers=8, timeout=1800, name="impl-node")
     rep = json.load(open(report))
-    log("[node] explored real node: %s in %.1fs; TLC product %d states" % (stats, time.time() - t0, r["distinct"]))
+    log("[node:%s] explored real node: %s in %.1fs; TLC product %d states" % (mode, stats, time.time() - t0, r["distinct"]))
     res = {"stats": stats, "report": rep, "details": details, "tlc": r, "requests": json.load(open(alpha)),
            "nodes": nodes}
-    _CACHE["ex"] = res
+    _CACHE[("ex", mode)] = res
     return res
 
 
 def frame_component(pid, tier):
-    ex = extract(tier)
+    viol, cov, ev, nt, samples = [], {}, 0, 0, []
+    seen = set()
+    for mode in ("default", "feelimit"):
+        v, c, e, n, s = _frame_one(pid, tier, mode)
+        for x in v:
+            if x["key"] not in seen:
+                seen.add(x["key"])
+                viol.append(x)
+        for k, val in c.items():
+            cov[k if mode == "default" else k + "_" + mode] = val
+        ev += e
+        nt += n
+        samples += s if mode == "default" else []
+    return viol, cov, ev, nt, samples
+
+
+def _frame_one(pid, tier, mode):
+    ex = extract(tier, mode)
     rep = ex["report"]
     viol = []
     refused = accepted = 0
